@@ -762,10 +762,100 @@ func scenarios() [][]op {
 			{K: "ResetGroup", M: 0}, {K: "UpdFinish", M: 0}, {K: "State", M: 0},
 			{K: "Elect", M: 1}, {K: "Sync", M: 1}, {K: "Set", M: 1, TS: far(), Rel: "one-hour-ahead"}, {K: "Gen", M: 1, Count: 1}, {K: "ResetGroup", M: 1},
 			{K: "Elect", M: 0}, {K: "State", M: 0}, {K: "Gen", M: 0, Count: 1}, {K: "Read"}},
+		// physical time ahead of the wall clock (after a reset into the future) and the logical part used up tick after
+		// tick: the "prevPhysical + 1ms" branch of UpdateTimestamp must extend the window from `next`, not from the clock
+		func() []op {
+			l := []op{{K: "Elect", M: 0}, {K: "Sync", M: 0}, {K: "Set", M: 0, TS: far(), Rel: "one-hour-ahead"}, {K: "State", M: 0}, {K: "Read"}}
+			for k := 0; k < 9; k++ {
+				l = append(l, op{K: "Gen", M: 0, Count: 1<<17 + 1}, op{K: "Upd", M: 0}, op{K: "State", M: 0}, op{K: "Read"})
+			}
+			return append(l, op{K: "Gen", M: 0, Count: 1}, op{K: "State", M: 0}, op{K: "Read"})
+		}(),
+		// hand-over A -> B -> A inside one process while B moved one hour ahead: A's second SyncTimestamp must start from
+		// the stored window, not from anything A remembers
+		{{K: "Elect", M: 0}, {K: "Sync", M: 0}, {K: "Gen", M: 0, Count: 1}, {K: "ResetGroup", M: 0},
+			{K: "Elect", M: 1}, {K: "Sync", M: 1}, {K: "Set", M: 1, TS: far(), Rel: "one-hour-ahead"}, {K: "Gen", M: 1, Count: 100}, {K: "Read"}, {K: "ResetGroup", M: 1},
+			{K: "Elect", M: 0}, {K: "Sync", M: 0}, {K: "State", M: 0}, {K: "Read"}, {K: "Gen", M: 0, Count: 5}, {K: "State", M: 0}, {K: "Read"}},
 		// unacknowledged reset save (recorded finding): SetTSO(+1h) applied but reported failed, then a periodic save
 		{{K: "Elect", M: 0}, {K: "Sync", M: 0}, {K: "Read"}, {K: "Set", M: 0, TS: far(), Rel: "one-hour-ahead", Out: 2}, {K: "Read"},
 			{K: "Sleep", Us: 6000}, {K: "Upd", M: 0}, {K: "State", M: 0}, {K: "Read"}},
 	}
+}
+
+// raceReset: a reset into the current millisecond whose check-to-write span is stretched by a parked window save, while
+// requests keep arriving. With the TSO lock held over the whole reset the requests simply wait; if the reset validates and
+// writes under different lock sections, its write lands on top of timestamps granted in between. Checked on the Go side:
+// every pair of answers that do not overlap in time must be ordered.
+func raceReset(e *etcdx.Etcd, admin *clientv3.Client, root string, R *res.Result, prop string) {
+	w := &world{e: e, admin: admin, root: root}
+	w.mems = append(w.mems, w.newMember(0))
+	x := w.mems[0]
+	if err := x.m.CampaignLeader(60); err != nil {
+		return
+	}
+	if err := x.alloc.Initialize(0); err != nil {
+		return
+	}
+	type ans struct{ P, L, C, Begin, End int64 }
+	var mu sync.Mutex
+	var all []ans
+	gen := func(c uint32) {
+		b := time.Now().UnixNano()
+		t, err := x.alloc.GenerateTSO(c)
+		if err == nil {
+			mu.Lock()
+			all = append(all, ans{t.Physical, t.Logical, int64(c), b, time.Now().UnixNano()})
+			mu.Unlock()
+		}
+	}
+	for i := 0; i < 5; i++ {
+		gen(1)
+	}
+	time.Sleep(7 * time.Millisecond) // a window save is due now
+	x.ctl.SetNext(etcdx.Park)
+	updDone := make(chan error, 1)
+	go func() { updDone <- w.safe("UpdateTSO", x.alloc.UpdateTSO) }()
+	select {
+	case <-x.ctl.Parked():
+	case <-updDone:
+		x.ctl.SetNext(etcdx.Pass)
+		return // no save was due: nothing to test in this run
+	case <-time.After(10 * time.Second):
+		panic("driver: raceReset: update neither parked nor done")
+	}
+	st := x.state()
+	target := compose(st.phys/1e6, st.logical+50)
+	setDone := make(chan error, 1)
+	go func() { setDone <- w.safe("SetTSO", func() error { return x.alloc.SetTSO(target) }) }()
+	time.Sleep(30 * time.Millisecond) // the reset has passed its checks and waits for the save section
+	var wg sync.WaitGroup
+	for i := 0; i < 4; i++ {
+		wg.Add(1)
+		go func() { defer wg.Done(); gen(40) }()
+	}
+	time.Sleep(60 * time.Millisecond)
+	x.ctl.Release(etcdx.Pass)
+	<-updDone
+	<-setDone
+	wg.Wait()
+	for i := 0; i < 5; i++ {
+		gen(1)
+	}
+	for i := range all {
+		for j := range all {
+			a, b := all[i], all[j]
+			if a.End < b.Begin {
+				first := b.L - b.C + 1
+				if a.P > b.P || (a.P == b.P && a.L >= first) {
+					R.Violate(prop+":timestamp-went-back:reset-racing-with-requests",
+						fmt.Sprintf("a request that began after (%d,%d) had been answered got the range ending at (%d,%d) with %d values", a.P, a.L, b.P, b.L, b.C),
+						map[string]interface{}{"earlier": a, "later": b, "scenario": "UpdateTSO parked at its save; SetTSO into the current millisecond started; 4 requests of 40; release"})
+				}
+			}
+		}
+	}
+	R.CountN("raceReset:answers", len(all))
+	x.am.ResetAllocatorGroup(tso.GlobalDCLocation)
 }
 
 type job struct {
@@ -872,6 +962,16 @@ func main() {
 	}
 	close(ch)
 	wg.Wait()
+	if *replay == "" {
+		if e, err := etcdx.Start(); err == nil {
+			if admin, _, err := e.NewClient(); err == nil {
+				for k := 0; k < 3; k++ {
+					raceReset(e, admin, fmt.Sprintf("/c01/race%d", k), R, *prop)
+				}
+			}
+			e.Close()
+		}
+	}
 
 	var all []caseRec
 	for _, c := range results {
